@@ -1219,6 +1219,8 @@ pub fn run_framing(report: &mut Report) -> u64 {
 enum Cmd {
     Rpc,
     Abort(usize),
+    /// `session.close()` is called and the reply future it returns (which owns the session) is dropped
+    CloseAndDrop,
 }
 
 async fn actor<T>(connect: impl std::future::Future<Output = Result<Session<T>, netconf::Error>>, mut rx: tokio::sync::mpsc::UnboundedReceiver<Cmd>, log: Arc<Mutex<ClientLog>>)
@@ -1263,8 +1265,86 @@ where
                     h.abort();
                 }
             }
+            Cmd::CloseAndDrop => {
+                match session.close().await {
+                    Ok(fut) => drop(fut),
+                    Err(e) => log.lock().unwrap().send_errors.push(format!("close: {e:?}")),
+                }
+                log.lock().unwrap().done = true;
+                return;
+            }
         }
     }
+}
+
+/// C18 on the real transports: two requests are outstanding (each awaited by its own task), the caller asks for
+/// the session to be closed and drops the reply future of that request - which owns the session. The peer then
+/// answers the two requests: both must complete with their own replies.
+pub fn run_close_future_dropped(report: &mut Report) -> u64 {
+    let servers = Servers::start("C18c");
+    let mut n = 0u64;
+    for xport in [Xport::Tls, Xport::Local, Xport::Ssh] {
+        n += 1;
+        let log: Arc<Mutex<ClientLog>> = Arc::default();
+        let (tx, rx) = tokio::sync::mpsc::unbounded_channel();
+        let l2 = log.clone();
+        let (task, peer): (tokio::task::JoinHandle<()>, Option<Box<dyn Peer>>) = match xport {
+            Xport::Tls => {
+                servers.tls.drain();
+                let port = servers.tls.port;
+                let t = servers.rt.spawn(async move {
+                    let ca = peers::load_certs("ca.crt").remove(0);
+                    let cert = peers::load_certs("client.crt").remove(0);
+                    let key = peers::load_key("client.key");
+                    actor(Session::tls(("127.0.0.1", port), "localhost", ca, cert, key), rx, l2).await;
+                });
+                (t, servers.tls.accept(Duration::from_secs(5)).map(|p| Box::new(p) as Box<dyn Peer>))
+            }
+            Xport::Local => {
+                let t = servers.rt.spawn(async move { actor(Session::junos_local(), rx, l2).await });
+                (t, servers.local.accept(Duration::from_secs(5)).map(|p| Box::new(p) as Box<dyn Peer>))
+            }
+            Xport::Ssh => {
+                servers.ssh.drain();
+                let port = servers.ssh.port;
+                let t = servers.rt.spawn(async move {
+                    let password: Password = SSH_PASSWORD.parse().unwrap();
+                    actor(Session::ssh(("127.0.0.1", port), "netconf".to_string(), password), rx, l2).await;
+                });
+                (t, servers.ssh.accept(Duration::from_secs(5), Some(SSH_PASSWORD.to_string())).filter(|p| p.established).map(|p| Box::new(p) as Box<dyn Peer>))
+            }
+        };
+        let Some(mut peer) = peer else { panic!("machinery failure: no peer on {xport:?}") };
+        _ = peer.send_chunk(server_hello().as_bytes());
+        _ = wait_until(servers.prompt, || log.lock().unwrap().established.is_some());
+        _ = peer.read_message(Duration::from_secs(3)); // client hello
+        let case = json!({"transport": format!("{xport:?}"), "outstanding_requests": 2, "then": "session.close() called and its reply future dropped; the peer answers the two requests"});
+        _ = tx.send(Cmd::Rpc);
+        _ = tx.send(Cmd::Rpc);
+        let got_requests = peer.read_message(Duration::from_secs(3)).is_some() && peer.read_message(Duration::from_secs(3)).is_some();
+        if !got_requests {
+            panic!("machinery failure: the two requests never reached the peer on {xport:?}");
+        }
+        _ = tx.send(Cmd::CloseAndDrop);
+        // the close-session request arrives (or not); then the session is gone
+        _ = peer.read_message(Duration::from_millis(500));
+        _ = wait_until(servers.prompt, || log.lock().unwrap().done);
+        std::thread::sleep(Duration::from_millis(50));
+        _ = peer.send_chunk(reply_for(1).as_bytes());
+        _ = peer.send_chunk(reply_for(2).as_bytes());
+        let ok = wait_until(servers.prompt, || log.lock().unwrap().results.iter().filter(|r| r.is_some()).count() == 2);
+        let l = log.lock().unwrap().clone();
+        for k in 0..2 {
+            match l.results.get(k).cloned().flatten().map(|r| r.0) {
+                Some(Ok(v)) if v == tag_for(k + 1) => {}
+                Some(other) => report.violation(&format!("C18:transport:close-future-dropped:survivor-does-not-get-its-reply:{xport:?}"), &format!("{xport:?}: request {} resolved to {other:?} after the close-session reply future was dropped, although its reply arrived", k + 1), case.clone()),
+                None => report.violation(&format!("C18:transport:close-future-dropped:survivor-never-completes:{xport:?}"), &format!("{xport:?}: request {} never resolved after the close-session reply future was dropped (waited: {ok})", k + 1), case.clone()),
+            }
+        }
+        peer.close(CloseKind::Eof);
+        task.abort();
+    }
+    n
 }
 
 /// For each transport: request 1 is outstanding and its future is the one reading; the peer delivers a
